@@ -101,6 +101,7 @@ fn main() {
         "c11l2" => c11l2::run(&a),
         "c19" => c19::run(&a),
         "c06core" => coregen::run(&a, "C06", "C06core", &["c06"]),
+        "c18core" => coregen::run(&a, "C18", "CoreMix", &["c18"]),
         "c10core" => coregen::run(&a, "C10", "CoreMix", &["c10"]),
         "coremix" => coregen::run(&a, "CORE", "CoreMix", &["mix", "c07", "c03", "c04", "c05", "c08", "c09", "c11", "c13", "c20"]),
         "c03" => coregen::run(&a, "C03", "C03", &["c03"]),
